@@ -31,7 +31,7 @@ use winter_math::{
     fields::{f128, f64, CubeExtension, QuadExtension},
     ExtensibleField, ExtensionOf, FieldElement, StarkField,
 };
-use winter_prover::Prover;
+use winter_prover::{Prover, Trace};
 use winter_utils::{Deserializable, Serializable};
 use winter_verifier::{verify, AcceptableOptions, VerifierError};
 use wf_harness::{airfam::*, catch, hex_bytes, jstr, prng::Rng, silence_panics};
@@ -117,6 +117,40 @@ impl<B: StarkField + ExtensibleField<2> + ExtensibleField<3>> Air for StrictAir<
     fn get_aux_assertions<E: FieldElement<BaseField = B>>(&self, rands: &[E]) -> Vec<Assertion<E>> { self.0.get_aux_assertions(rands) }
 }
 
+// ================================================================================================ a prover whose trace carries metadata
+// (TraceInfo::meta is an untrusted field of the proof: it is serialized in the context and absorbed into the coin seed by
+// Context::to_elements -> from_bytes_with_padding; after harness/src/bin/c03.rs)
+struct MetaTrace<B: StarkField> { inner: FamTrace<B>, info: TraceInfo }
+impl<B: StarkField> Trace for MetaTrace<B> {
+    type BaseField = B;
+    fn info(&self) -> &TraceInfo { &self.info }
+    fn main_segment(&self) -> &winter_prover::matrix::ColMatrix<B> { self.inner.main_segment() }
+    fn read_main_frame(&self, row_idx: usize, frame: &mut EvaluationFrame<B>) { self.inner.read_main_frame(row_idx, frame) }
+}
+struct MetaProver<B: StarkField, H> { options: ProofOptions, _p: std::marker::PhantomData<(B, H)> }
+impl<B: Fld, H: ElementHasher<BaseField = B> + Send + Sync> Prover for MetaProver<B, H> {
+    type BaseField = B;
+    type Air = FamAir<B>;
+    type Trace = MetaTrace<B>;
+    type HashFn = H;
+    type RandomCoin = DefaultRandomCoin<H>;
+    type TraceLde<E: FieldElement<BaseField = B>> = winter_prover::DefaultTraceLde<E, H>;
+    type ConstraintEvaluator<'a, E: FieldElement<BaseField = B>> = winter_prover::DefaultConstraintEvaluator<'a, FamAir<B>, E>;
+    fn get_pub_inputs(&self, trace: &MetaTrace<B>) -> PubInputs<B> {
+        PubInputs { spec: trace.inner.spec.clone(), avals: assertion_values(&trace.inner.spec, &trace.inner.cols()) }
+    }
+    fn options(&self) -> &ProofOptions { &self.options }
+    fn new_trace_lde<E: FieldElement<BaseField = B>>(&self, trace_info: &TraceInfo, main_trace: &winter_prover::matrix::ColMatrix<B>, domain: &winter_prover::StarkDomain<B>) -> (Self::TraceLde<E>, winter_prover::TracePolyTable<E>) {
+        winter_prover::DefaultTraceLde::new(trace_info, main_trace, domain)
+    }
+    fn new_evaluator<'a, E: FieldElement<BaseField = B>>(&self, air: &'a FamAir<B>, aux_rand_elements: Option<winter_air::AuxRandElements<E>>, composition_coefficients: winter_air::ConstraintCompositionCoefficients<E>) -> Self::ConstraintEvaluator<'a, E> {
+        winter_prover::DefaultConstraintEvaluator::new(air, aux_rand_elements, composition_coefficients)
+    }
+    fn build_aux_trace<E: FieldElement<BaseField = B>>(&self, trace: &MetaTrace<B>, aux_rand_elements: &winter_air::AuxRandElements<E>) -> winter_prover::matrix::ColMatrix<E> {
+        winter_prover::matrix::ColMatrix::new(gen_aux::<B, E>(&trace.inner.spec, trace.inner.main_segment(), aux_rand_elements.rand_elements()))
+    }
+}
+
 // ================================================================================================ corpus
 #[derive(Clone)]
 struct Base { fld: String, hsh: String, spec: Spec, avals_hex: Vec<Vec<String>>, opts: [u8; 6], ceb: usize, ncols: usize, bytes: Vec<u8> }
@@ -179,6 +213,10 @@ fn air_params_dyn(fld: &str, spec: &Spec, avals_hex: &[Vec<String>]) -> Option<(
 
 /// one honest proof; None when the library's prover refuses the parameters
 fn gen_one<B: Fld, H>(fld: &str, hsh: &str, spec: &Spec, o: [usize; 6]) -> Option<Base>
+where H: ElementHasher<BaseField = B> + Send + Sync { gen_one_meta::<B, H>(fld, hsh, spec, o, &[]) }
+
+/// ... with trace metadata (empty = the plain family prover)
+fn gen_one_meta<B: Fld, H>(fld: &str, hsh: &str, spec: &Spec, o: [usize; 6], meta: &[u8]) -> Option<Base>
 where H: ElementHasher<BaseField = B> + Send + Sync {
     let (q, blowup, grind, ext, fold, rem) = (o[0], o[1], o[2] as u32, ext_of(o[3] as u8), o[4], o[5]);
     let lde = spec.n() * blowup;
@@ -186,9 +224,18 @@ where H: ElementHasher<BaseField = B> + Send + Sync {
     let opts = catch(|| ProofOptions::new(q, blowup, grind, ext, fold, rem)).ok()?;
     let cols = gen_main::<B>(spec);
     let trace = FamTrace::new(spec, cols);
-    let prover = FamProver::<B, H, DefaultRandomCoin<H>>::new(opts.clone());
-    let pi = prover.get_pub_inputs(&trace);
-    let proof = match catch(AssertUnwindSafe(|| prover.prove(trace))) { Ok(Ok(p)) => p, _ => return None };
+    let (pi, proof) = if meta.is_empty() {
+        let prover = FamProver::<B, H, DefaultRandomCoin<H>>::new(opts.clone());
+        let pi = prover.get_pub_inputs(&trace);
+        match catch(AssertUnwindSafe(|| prover.prove(trace))) { Ok(Ok(p)) => (pi, p), _ => return None }
+    } else {
+        let info = if spec.aux_width > 0 { TraceInfo::new_multi_segment(spec.width, spec.aux_width, spec.aux_rands, spec.n(), meta.to_vec()) }
+                   else { TraceInfo::with_meta(spec.width, spec.n(), meta.to_vec()) };
+        let prover = MetaProver::<B, H> { options: opts.clone(), _p: std::marker::PhantomData };
+        let mt = MetaTrace { inner: trace, info };
+        let pi = prover.get_pub_inputs(&mt);
+        match catch(AssertUnwindSafe(|| prover.prove(mt))) { Ok(Ok(p)) => (pi, p), _ => return None }
+    };
     let bytes = proof.to_bytes();
     let acc = AcceptableOptions::MinConjecturedSecurity(0);
     match catch(AssertUnwindSafe(|| verify::<StrictAir<B>, H, DefaultRandomCoin<H>>(proof.clone(), pi.clone(), &acc))) { Ok(Ok(())) => {}, _ => return None }
@@ -224,6 +271,20 @@ fn gen(seed: u64, path: &str, thorough: bool) {
             spec.aux_width = pl.3; spec.aux_rands = pl.4;
             if pl.0 >= 2 { spec.assertions.push(AKind::Single { col: 1, step: spec.n() - 1 }); }
             if let Some(b) = dispatch!(f, h, gen_one(f, h, &spec, pl.5)) { out.push(b); }
+        }
+        // valid proofs whose context carries metadata: full-width blocks of 0xFF, the modulus bytes, random bytes
+        {
+            let eb = if f == "f64" { 8 } else { 16 };
+            let modb: Vec<u8> = if f == "f64" { B64::get_modulus_le_bytes() } else { B128::get_modulus_le_bytes() };
+            let mut metas: Vec<Vec<u8>> = vec![vec![0xff; eb], { let mut m = modb.clone(); m.push(5); m }, r.bytes(2 * eb + 3)];
+            if thorough { metas.push(vec![0xff; eb - 1]); metas.push(vec![0xff; 2 * eb]); metas.push(r.bytes(1000)); }
+            if h == "b3_192" || h == "sha3" { metas.truncate(1); }
+            for (k, meta) in metas.iter().enumerate() {
+                let pl = &plans[k % 2 + 1];
+                let mut spec = Spec::simple(pl.0, pl.1, pl.2, r.next_u64());
+                spec.assertions.push(AKind::Single { col: 1, step: spec.n() - 1 });
+                if let Some(b) = dispatch!(f, h, gen_one_meta(f, h, &spec, pl.5, meta)) { out.push(b); }
+            }
         }
         // a few random members
         let extra = if thorough { 6 } else { 1 };
@@ -478,6 +539,37 @@ fn mutations(b: &Base, r: &mut Rng, budget: usize, exhaustive_bits: bool, out: &
         out.push(vcase(b, "ctx:modulus=254x ff".into(), splice(bytes, ms, &vec![0xff; 254])));
         let meta = lay.get("ti.meta");
         for k in [1usize, 7, 8, 15, 16, 65535] { out.push(vcase(b, format!("ctx:meta={}", k), splice(bytes, meta, &r.bytes(k)))); }
+    }
+    // --- 3b. trace metadata (an untrusted field of the context, absorbed into the coin seed chunk by chunk): re-serialised
+    //         contexts with metadata of every interesting length and filling, at every alignment
+    {
+        let meta = lay.get("ti.meta");
+        let ebb = if b.fld == "f64" { 8usize } else { 16 };
+        let modb: Vec<u8> = if b.fld == "f64" { B64::get_modulus_le_bytes() } else { B128::get_modulus_le_bytes() };
+        let mut modp = modb.clone(); for x in modp.iter_mut() { let (y, c) = x.overflowing_add(1); *x = y; if !c { break; } }   // modulus + 1
+        let mut modm = modb.clone(); for x in modm.iter_mut() { let (y, c) = x.overflowing_sub(1); *x = y; if !c { break; } }   // modulus - 1
+        let fill = |kind: usize, n: usize, r: &mut Rng| -> Vec<u8> { match kind {
+            0 => vec![0u8; n], 1 => vec![0xff; n],
+            2 => modb.iter().cycle().take(n).copied().collect(), 3 => modp.iter().cycle().take(n).copied().collect(),
+            4 => modm.iter().cycle().take(n).copied().collect(), _ => r.bytes(n) } };
+        let kinds = ["00", "ff", "mod", "mod+1", "mod-1", "rnd"];
+        for n in [0usize, 1, ebb - 1, ebb, ebb + 1, 2 * ebb - 1, 2 * ebb, 2 * ebb + 1, 3 * ebb] {
+            for (k, kn) in kinds.iter().enumerate() {
+                if n == 0 && k > 0 { continue; }
+                out.push(vcase(b, format!("meta:len={},fill={}", n, kn), splice(bytes, meta, &fill(k, n, r))));
+            }
+        }
+        // one full-width block of 0xFF / modulus / modulus+1 after `a` zero bytes, followed by one more byte
+        for a in 0..2 * ebb {
+            for k in [1usize, 2, 3] {
+                let mut m = vec![0u8; a]; m.extend(fill(k, ebb, r)); m.push(1);
+                out.push(vcase(b, format!("meta:align={},block={}", a, kinds[k]), splice(bytes, meta, &m)));
+            }
+        }
+        for k in [1usize, 2, 5] { out.push(vcase(b, format!("meta:len=65535,fill={}", kinds[k]), splice(bytes, meta, &fill(k, 65535, r)))); }
+        // the existing metadata (if any) with single bytes set to 0xFF
+        let body = &bytes[meta.start..meta.end];
+        for i in 0..body.len().min(64) { let mut nb = body.to_vec(); nb[i] = 0xff; out.push(vcase(b, format!("meta:byte{}=ff", i), splice(bytes, meta, &nb))); }
     }
     // --- 4. truncation, trailing garbage
     let n = bytes.len();
